@@ -21,6 +21,7 @@ ENC = {
     "aro": ["c", "n", "[nH]", "o", "s", "C", "-c", ":c", "(", ")", "1", "2", "[n+]", "=O"],
     "aro2": ["c", "c", "1", "2", "3", "(", ")", "[cH-]", "[c-]", "p", "[o+]", "[c]", "b", "n"],
     "caps": ["C", "=C", "#C", "N", "=N", "O", "=O", "[N+]", "[O-]", "(", ")", "[CH2]", "F", "P", "S", "=S"],
+    "hcaps": ["[NH4]", "[CH5]", "[OH3]", "[BH4]", "C", "N", "=O", ".", "(", ")", "[NH4+]", "[CH3]", "[SiH3]", "[OH2]"],
     "bad": ["C", "C", "1", "=1", "#1", "(", ")", "%", "[", "]", "=", ".", ":", "*", "c", "X", "[Xx]", "%1"],
 }
 
@@ -272,9 +273,13 @@ def check_C06(tier):
                          "API; strict=False results compared across tables; non-trivial = accepted by the parser")
     n = 5 if quick else 6
     own = ("C06",)
-    tabs = {"default": "default", "octet": "octet_rule", "tight": TABLES["tight"],
+    tabs = {"hypervalent": "hypervalent", "default": "default", "octet": "octet_rule", "tight": TABLES["tight"],
             "charged": {"C": 4, "N": 3, "N+1": 4, "O": 2, "O-1": 1, "F": 1, "P": 3, "S": 2, "H": 1, "?": 2}}
     per_table = {}
+    # lone atoms and fragments whose explicit hydrogens alone exceed the capacity
+    for tname in ("default", "charged"):
+        enc_gen_replay(rep, "hcaps_%s" % tname, ENC["hcaps"], tabs[tname], n - 2, strict=True, quick=quick, own=own,
+                       invariants=["StrictExact", "TwoOutcomes", "OutInGrammar", "SameAtoms", "SameBonds"])
     for tname, tab in tabs.items():
         if quick and tname == "octet":
             continue
@@ -307,6 +312,26 @@ def check_C06(tier):
                                   {"smiles": s, "table": tab})
                 if out[0] != "ok" and de.call_encoder(s, strict=False)[2] == "constraints":
                     rep.violation("strict=False raised a constraint error for %r" % s, {"smiles": s})
+    finally:
+        sf.set_semantic_constraints("default")
+    # history: the same inputs strict-encoded in ONE process under a loose table first, then under tighter
+    # ones and back (a memo of an earlier verdict must not survive a table change)
+    strict_tabs = [t for (t, s_) in per_table if s_]
+    order = [t for t in ("hypervalent", "default", "charged", "tight", "hypervalent", "octet", "default") if t in strict_tabs]
+    probe = sorted(per_table[(order[0], True)])
+    rng.shuffle(probe)
+    probe = probe[: (4000 if quick else 40000)]
+    try:
+        for tname in order:
+            tab = tabs[tname]
+            sf.set_semantic_constraints(tab if isinstance(tab, str) else dict(tab))
+            al = per_table[(tname, True)]
+            for s in probe:
+                out = de.call_encoder(s, strict=True)[:2]
+                rep.traces += 1
+                if s in al and out not in al[s]:
+                    rep.violation("encoder(%r, strict=True) under table %s after calls under other tables: %r, allowed %r" % (
+                        s, tname, out, sorted(al[s])), {"smiles": s, "table": tab, "order": order})
     finally:
         sf.set_semantic_constraints("default")
     # realistic molecules near capacity limits under the presets
@@ -453,29 +478,44 @@ def check_C10(tier):
 # encoder halves of C16 and C14
 # --------------------------------------------------------------------------
 
+def index_table_from_spec():
+    """IndexSymbols(n) for all n < 16^3, evaluated by TLC (the specification's table, not a Python copy)."""
+    text = ("---- MODULE IndexTable ----\nEXTENDS Constraints, Json\n"
+            "ASSUME PrintT(ToJson([tab |-> [n \\in 1..4096 |-> IndexSymbols(n - 1)]]))\n"
+            "VARIABLE x\nInit == x = 0\nNext == UNCHANGED x\nSpec == Init /\\ [][Next]_x\n====\n")
+    r, failed = de.run_const_checks(text, "IndexTable")
+    for v in r.printed:
+        if isinstance(v, dict) and "tab" in v:
+            return r, v["tab"]
+    raise MachineryError("IndexTable not produced:\n" + r.log[-1500:])
+
+
 def index_encoder_side(rep, quick):
-    """C16 through the public encoder: ring spans and branch lengths for every index value."""
-    ns = (list(range(0, 60)) + list(range(60, 300, 7)) + [255, 256, 257, 271, 272, 4095 if not quick else 1023]) if quick \
-        else list(range(0, 1100)) + list(range(1100, 4096, 13)) + [4093, 4094, 4095]
-    smis = [gs.macrocycle(k) for k in ns] + [gs.long_branch(k) for k in ns if k < (400 if quick else 4095)]
-    judge_roundtrips(rep, "index_encoder", smis, "default", True, ("C03", "C10", "C16", "C02"))
-    sf = de.selfies_mod()
-    # the emitted symbols are the shortest big-endian digits: check the text through the public API
-    from alphabets import IDX
+    """C16 through the public encoder: ring spans and branch lengths for every index value; the emitted
+    index symbols must be the specification's IndexSymbols(n), and the round trip (TLC) must close the
+    ring / end the branch at the right atom."""
+    r, tab = index_table_from_spec()
+    rep.add_tlc(r, "IndexSymbols table (TLC)")
+    ns = list(range(0, 300)) + list(range(304, 4096, 16)) + [255, 256, 257, 4094, 4095] if quick else list(range(0, 4096))
+    ns = sorted(set(ns))
     for k in ns:
+        want = tab[k]
         kind, sel, _ = de.call_encoder(gs.macrocycle(k))
         rep.traces += 1
-        digits = []
-        q = k
-        while True:
-            digits.append(IDX[q % 16])
-            q //= 16
-            if q == 0:
-                break
-        want = "[Ring%d]" % len(digits) + "".join(reversed(digits))
-        if kind != "ok" or not sel.endswith(want):
-            rep.violation("encoder(ring of %d atoms) does not end with %s: %s" % (k + 2, want, sel[-60:]), {"n": k})
+        tail = "[Ring%d]" % len(want) + "".join(want)
+        if k >= 1 and (kind != "ok" or not sel.endswith(tail)):
+            rep.violation("encoder(ring of %d atoms) does not end with %s: %s" % (k + 2, tail, sel[-70:]), {"n": k})
+        if k < (1500 if quick else 4094):
+            kind, sel, _ = de.call_encoder(gs.long_branch(k))
+            rep.traces += 1
+            head = "[C][Branch%d]" % len(want) + "".join(want)
+            if kind != "ok" or not sel.startswith(head):
+                rep.violation("encoder(branch of %d atoms) does not start with %s: %s" % (k + 1, head, sel[:70]), {"n": k})
     rep.notes["encoder_index_values"] = len(ns)
+    # placement judged by TLC on moderate sizes (trace validation cost grows quadratically with the ring)
+    small = [k for k in ns if k <= (40 if quick else 120)] + ([255, 256, 257] if not quick else [])
+    smis = [gs.macrocycle(k) for k in small if k >= 1] + [gs.long_branch(k) for k in small]
+    judge_roundtrips(rep, "index_encoder", smis, "default", True, ("C03", "C10", "C16", "C02"))
 
 
 def encoder_outputs_well_formed(rep, quick):
